@@ -142,3 +142,32 @@ fn c18_ffi_header_map_roundtrip() {
     assert!(header_map_to_http_headers(std::ptr::null()).is_empty());
     assert!(http_headers_to_header_map(Vec::new()).is_null());
 }
+
+/// One header with a concrete name and a 1-byte symbolic value that may be NUL, handed to C: exactly
+/// one node; the name string is present; the value string is NULL iff the value contains a NUL; the
+/// caller can release everything exactly once.
+#[kani::proof]
+#[kani::unwind(6)]
+fn c18_ffi_header_map_one_header() {
+    let v: u8 = kani::any();
+    kani::assume(v < 128);
+    let map = http_headers_to_header_map(vec![Header { name: String::from("a"), value: s1(v) }]);
+    assert!(!map.is_null());
+    let (name, value, next) = unsafe { node(map) };
+    assert!(next.is_null());
+    assert!(!name.is_null());
+    assert!(value.is_null() == (v == 0));
+    unsafe {
+        assert!(*(name as *const u8) == b'a' && *(name as *const u8).add(1) == 0);
+        if !value.is_null() {
+            assert!(*(value as *const u8) == v && *(value as *const u8).add(1) == 0);
+            // CString::into_raw hands out a Box<[u8]> of len + 1 bytes (CString::from_raw would call strlen,
+            // a foreign function Kani does not model)
+            drop(Box::from_raw(std::slice::from_raw_parts_mut(value as *mut u8, 2)));
+        }
+        drop(Box::from_raw(std::slice::from_raw_parts_mut(name as *mut u8, 2)));
+        drop(Box::from_raw(map as *mut HeaderMap));
+    }
+    kani::cover!(v == 0);
+    kani::cover!(v != 0);
+}
